@@ -28,9 +28,12 @@ func vH_C18_tunnel_frame() {
 
 // round trip of two datagrams of every size 0..3 through an arbitrarily
 // chunked stream; contents symbolic (incl. bytes equal to the markers)
-func vH_C18_tunnel_roundtrip() {
-	for n1 := 0; n1 <= 3; n1++ {
-		for n2 := 0; n2 <= 3; n2++ {
+func vH_C18_tunnel_roundtrip()       { vTunnelRoundTrip(3, 3) }
+func vH_C18_tunnel_roundtrip_quick() { vTunnelRoundTrip(2, 1) }
+
+func vTunnelRoundTrip(max1, max2 int) {
+	for n1 := 0; n1 <= max1; n1++ {
+		for n2 := 0; n2 <= max2; n2++ {
 			p1, p2 := vNondetBytes("p1", n1), vNondetBytes("p2", n2)
 			w := &vFakeConn{}
 			t := NewPacketOverStreamTunnel(w)
